@@ -226,12 +226,22 @@ def r3(F, R):
     pushes = [(s2, t2) for s2, t2 in ex.calls(lambda t2: callee_is(t2, r"FuturesUnordered::<.*>::push$"))]
     R.check(len(st) == 1 and len(pushes) == 1 and _dominated_or_guarded(ex, st[0][0], pushes[0][0]), "register-before-dispatch", st[0][0] if st else ex, "start_scenarios(batch) precedes the pushes",
             "scenarios can be dispatched before they are registered with the log collector")
+    deregistration(F, R)
+    R.floor(6)
+
+
+def deregistration(F, R):
+    """Every consumed completion message de-registers its attempt from the log collector — on every row of the completion
+    table (completions.py) that has a collector; otherwise a finished attempt stays registered and later unattributed logs
+    are delivered as Log events of it, after its Finished event."""
     from . import completions as CP
     C = CP.table(F)
     dr = [(r, e) for r in C.msg_rows for _, e in r["dereg"]]
     okd = bool(dr) and all(len(e[2]) > 1 and CP._strip(e[2][1]) == C.component(r, 0) for r, e in dr) and all(len(r["dereg"]) <= 1 for r in C.msg_rows)
     R.check(okd, "deregister-on-consumed-completion", C.body, "finish_scenario(message.0)", "finish_scenario is not called (once) with the id of the consumed completion message")
-    R.floor(6)
+    skipped = [r for r in C.msg_rows if not r["dereg"] and not any(a[0] == "discr" and o == "None" and not D.mentions(a, lambda y: y[0] == "call") for a, o in r["p"].conds)]
+    R.check(not skipped, "deregister-every-completion", C.body, f"all {len(C.msg_rows)} message rows with a collector de-register",
+            "a completion message can be consumed without finish_scenario(id) although a collector is present (e.g. for retried attempts): the attempt stays registered")
 
 
 def _dominated_or_guarded(b, a, c):
